@@ -224,7 +224,9 @@ func init() {
 						fc = tiles.ToFeatureCollection()
 					}
 					in := newBitIntern()
-					enc := func(b orb.Bound) [4]int { return [4]int{in.id(b.Min[0]), in.id(b.Min[1]), in.id(b.Max[0]), in.id(b.Max[1])} }
+					enc := func(b orb.Bound) [4]int {
+						return [4]int{in.id(b.Min[0]), in.id(b.Min[1]), in.id(b.Max[0]), in.id(b.Max[1])}
+					}
 					bounds, want := [][4]int{}, [][4]int{}
 					polys := 1
 					for _, f := range fc.Features {
